@@ -12,16 +12,23 @@ from harness import common as C
 META = {
     "level": "proof",
     "level_text": "Theorems over all exception records and all payloads (props/C09.v): class/args/attribute fidelity of every built-in class under every "
-                  "setting of the sender and receiver switches, exact gating of custom classes, no import / no constructor / only built-in classes for EVERY "
-                  "payload under the default switches, the StopIteration fast path in both directions, non-disclosure of traceback/version; the loader's "
+                  "setting of the sender and receiver switches, exact gating of custom classes (incl. classes a loaded module serves through a module-level "
+                  "__getattr__, PEP 562), for EVERY payload and every switch setting: an import happens only through the guarded __import__ or inside a module "
+                  "hook consulted by the class lookup, never a constructor, at most one __new__, only builtins classes when instantiate_custom is off; "
+                  "'no import unless import_custom is on' is proved for trees whose lookup consults module hooks only when importing is allowed (generated fact "
+                  "load_lookup_mode; c09_no_import_without_switch) and REFUTED with a witness for a tree that uses getattr (c09_no_import_without_switch_refuted); "
+                  "under the default switches nothing is imported whatever the lookup form; the StopIteration fast path in both directions, non-disclosure of traceback/version; the loader's "
                   "import guard and class-resolution ladder, the dump normalisation facts and the _box_exc/_unbox_exc plumbing are regenerated from the "
                   "source on every run and tied by reflexivity; the extracted model is compared with the real code on every built-in class of the running "
-                  "interpreter, custom classes (imported / importable / unknown) and hostile payloads. Proof is the right level: the property quantifies "
+                  "interpreter, custom classes (imported / importable / unknown / served lazily by a hooked module) and hostile payloads. Proof is the right level: the property quantifies "
                   "over all classes, argument tuples, switch settings and arbitrary payloads.",
     "level_note": "Trusted: Coq kernel, pygen, extraction + driver, harness. CPython's own behaviour is environment: dir()/getattr/repr on the sender, "
                   "the builtins namespace / sys.modules / import machinery, BaseException.__new__, setattr on exception objects (the model returns the "
                   "setattr instructions, the harness executes them on a fresh object of the same base class). Outside: text of tracebacks, classes whose "
-                  "__new__ needs arguments (reported by the oracle when built in), frozenset iteration order inside hostile records (unmodelled).",
+                  "__new__ needs arguments (reported by the oracle when built in), frozenset iteration order inside hostile records (unmodelled). "
+                  "Code of already imported modules that runs on attribute access is modelled only as the PEP 562 module hook (its imports and the class it "
+                  "returns); importlib LazyLoader modules, module subclasses with properties, sys.modules entries that are not modules and hooks raising "
+                  "something other than AttributeError are outside.",
     "technique": "Coq proof over an executable model (interpreted resolution ladder) + regenerated facts tied by reflexivity + differential correspondence "
                  "of the extracted model + implementation-level oracle with audit hook / sys.modules delta / __new__ and __init__ canaries",
     "gen": ["consts", "vinegar"],
@@ -33,6 +40,8 @@ META = {
         "brine round trip of the record is C04 (c09_wire reuses its theorem); values here stay below its size limits",
         "the StopIteration fast path carries no traceback/version by design (theorem 4); classes whose __new__ requires arguments are outside the model's "
         "positive theorem (hypothesis new_ok) but inside the oracle",
+        "a module-level __getattr__ of an already imported module is described to the model by the harness (which names it serves, what it imports, "
+        "what it returns); the fixture module c09mod_hook stands for real ones such as concurrent.futures",
     ],
 }
 
@@ -190,8 +199,27 @@ VE = ValueError
 '''
 MOD_NS = {"Foo": "exc", "NeedsArgs": "exc", "Sub": "exc", "Base": "exc", "NotExc": "other", "Plain": "other", "helper": "other",
           "VE": "builtin:ValueError", "sys": "other"}
-LOADED, LAZY, LAZY2, NOSUCH = "c09mod_loaded", "c09mod_lazy", "c09mod_lazy2", "c09mod_nosuch"
+LOADED, LAZY, LAZY2, NOSUCH, HOOK = "c09mod_loaded", "c09mod_lazy", "c09mod_lazy2", "c09mod_nosuch", "c09mod_hook"
 CUSTOM_MODS = [LOADED, LAZY, LAZY2, NOSUCH]
+# an already imported module with a module-level __getattr__ (PEP 562) that imports on demand, like concurrent.futures
+HOOK_SRC = '''
+class HookExc(Exception):
+    pass
+plain_value = 5
+def __getattr__(name):
+    if name == "LazyExc":
+        import c09mod_lazy2
+        return c09mod_lazy2.Foo
+    if name == "LazyOther":
+        import c09mod_lazy
+        return c09mod_lazy.helper
+    if name == "LazyNone":
+        import c09mod_lazy
+        raise AttributeError(name)
+    raise AttributeError(name)
+'''
+# name -> (modules the hook imports, (module, class) of the exception class it returns or None)
+HOOK_LAZY = {"LazyExc": ([LAZY2], (LAZY2, "Foo")), "LazyOther": ([LAZY], None), "LazyNone": ([LAZY], None)}
 
 
 class Fixture:
@@ -202,12 +230,15 @@ class Fixture:
         for m in (LOADED, LAZY, LAZY2):
             with open(os.path.join(self.dir, m + ".py"), "w") as f:
                 f.write(MOD_SRC)
+        with open(os.path.join(self.dir, HOOK + ".py"), "w") as f:
+            f.write(HOOK_SRC)
         self.reg = types.ModuleType("_c09_registry")
         self.reg.IMPORTS, self.reg.CALLS = [], []
         sys.modules["_c09_registry"] = self.reg
         sys.path.insert(0, self.dir)
         importlib.invalidate_caches()
         self.loaded = importlib.import_module(LOADED)
+        self.hook = importlib.import_module(HOOK)
         self.conns = {}
         self.builtin_ns = self._builtin_ns()
 
@@ -217,7 +248,7 @@ class Fixture:
                 c.close()
             except Exception:
                 pass
-        for m in [LOADED, LAZY, LAZY2, "_c09_registry"]:
+        for m in [LOADED, LAZY, LAZY2, HOOK, "_c09_registry"]:
             sys.modules.pop(m, None)
         if self.dir in sys.path:
             sys.path.remove(self.dir)
@@ -291,13 +322,27 @@ def kind_sx(v):
 
 
 def module_ns_sx(mod, extra_names):
-    names = set(extra_names) | set(MOD_NS) | {"error", "path", "exit", "modules"}
+    """the module's namespace (its __dict__: reading it must not run a module-level __getattr__), plus, for the fixture's
+    hooked module, what its __getattr__ serves"""
+    names = set(extra_names) | set(MOD_NS) | {"error", "path", "exit", "modules", "HookExc", "plain_value"}
     out = []
+    d = getattr(mod, "__dict__", {})
     for n in sorted(names):
-        v = getattr(mod, n, MISSING) if isinstance(n, str) else MISSING
+        v = d.get(n, MISSING) if isinstance(n, str) else MISSING
         if v is not MISSING:
             out.append([cps(n), kind_sx(v)])
+    if getattr(mod, "__name__", None) == HOOK:
+        for n, (imps, found) in sorted(HOOK_LAZY.items()):
+            e = [2, [cps(m) for m in imps]]
+            if found is not None:
+                e += [[1, cps(found[0]), cps(found[1])], True]
+            out.append([cps(n), e])
     return out
+
+
+def has_module_hook(modname):
+    m = sys.modules.get(modname) if isinstance(modname, str) else None
+    return m is not None and "__getattr__" in getattr(m, "__dict__", {})
 
 
 def lazy_ns_sx(modname):
@@ -445,9 +490,9 @@ def gen_value(r, depth):
     return slice(gen_value(r, 0), gen_value(r, 0), gen_value(r, 0))
 
 
-HOSTILE_MODS = ["builtins", "os", "sys", "posix", "subprocess", "harness.C09", LOADED, LAZY, LAZY2, NOSUCH, "", "builtins.x", "os.path", "rpyc.core.vinegar",
+HOSTILE_MODS = ["builtins", "os", "sys", "posix", "subprocess", "harness.C09", LOADED, LAZY, LAZY2, NOSUCH, HOOK, HOOK, "", "builtins.x", "os.path", "rpyc.core.vinegar",
                 "c09mod_loaded.Foo", "exceptions", "a\x00b", "s\ud800", "__main__", "_c09_registry", 5, None, b"os", ("os",), 1.0, True]
-HOSTILE_CLS = ["ValueError", "OSError", "IOError", "EnvironmentError", "SystemExit", "KeyboardInterrupt", "StopIteration", "ExceptionGroup", "BaseExceptionGroup",
+HOSTILE_CLS = ["LazyExc", "LazyOther", "LazyNone", "HookExc", "plain_value", "ValueError", "OSError", "IOError", "EnvironmentError", "SystemExit", "KeyboardInterrupt", "StopIteration", "ExceptionGroup", "BaseExceptionGroup",
                "UnicodeDecodeError", "BlockingIOError", "SyntaxError", "int", "len", "eval", "exec", "exit", "open", "__import__", "object", "type", "nosuch",
                "error", "system", "Popen", "path", "modules", "Foo", "NeedsArgs", "Sub", "Base", "NotExc", "Plain", "helper", "VE", "GenericException", "load",
                "", "a.b", "Value\x00Error", "\udc00", "__class__", 5, None, b"ValueError", ("ValueError",), 2.5, "BaseException", "Exception", "Warning"]
@@ -673,22 +718,31 @@ def oracle_genuine(ctx, case, exc, expect, sf, rf, obs, tbtext, descr):
                 return
 
 
-def oracle_effects(ctx, case, rf, obs, allowed_import, allowed_new, descr):
-    """safety clause: imports only when allowed, never a constructor, __new__ only of allowed classes"""
+def oracle_effects(ctx, case, rf, obs, allowed_import, allowed_new, descr, hooked=False, alt=None):
+    """safety clause: imports only when allowed, never a constructor, __new__ only of allowed classes.
+    alt = (imports, news): a second acceptable outcome (a module hook consulted with both switches on).
+    returns False when the failure is the module-hook import (the same root cause would also trip the class oracle)"""
     def bad(sig, what, observed, expected):
         ctx.violation(sig, case, observed=observed, expected=expected, what=what + " [" + descr + "]")
     imps = [m for m in obs["imports"]]
+    news = [c[1] for c in obs["calls"] if c[0] == "new"]
+    if alt is not None and imps == alt[0] and news == alt[1]:
+        allowed_import, allowed_new = alt
     if imps != allowed_import or (obs["new_modules"] and not allowed_import) or (obs["module_bodies_run"] and not allowed_import):
-        bad("unexpected-import" if not rf[0] else "import-mismatch", "the receiver imported (or tried to import) modules it must not",
-            {"audit": imps, "sys.modules+": obs["new_modules"], "bodies": obs["module_bodies_run"]}, allowed_import)
+        seen = {"audit": imps, "sys.modules+": obs["new_modules"], "bodies": obs["module_bodies_run"]}
+        if not rf[0] and hooked and not allowed_import:
+            bad("import-without-switch:module-getattr-hook", "import_custom_exceptions is off, yet reading the class out of an already imported module ran "
+                "its module-level __getattr__ (PEP 562), which imported modules", seen, [])
+            return False
+        bad("unexpected-import" if not rf[0] else "import-mismatch", "the receiver imported (or tried to import) modules it must not", seen, allowed_import)
     if obs["audit_other"] and not (allowed_import and set(obs["audit_other"]) <= {"compile", "exec"}):
         bad("dangerous-audit-event:" + obs["audit_other"][0], "exec/compile/process event while loading an exception", obs["audit_other"], [])
     inits = [c for c in obs["calls"] if c[0] in ("init", "call")]
     if inits:
         bad("constructor-run", "a constructor / callable of a module was run while rebuilding the exception", obs["calls"], [])
-    news = [c[1] for c in obs["calls"] if c[0] == "new"]
     if news != allowed_new:
         bad("unexpected-__new__", "custom __new__ calls differ from what the configuration allows", news, allowed_new)
+    return True
 
 
 # ------------------------------------------------------------------ correspondence with the model
@@ -825,14 +879,33 @@ def compare_load(ctx, fx, descr, mres, obs, set_names):
                 ctx.tie_broken("correspondence:load-attrs", "%s: attribute %r model %s impl %s" % (descr, n, short(bb), short(a)))
 
 
+_facts = {}
+
+
+def gen_facts():
+    """the generated facts of the tree under test, straight from the translator (the file coq/gen/Gen_vinegar.v may be
+    regenerated by a concurrent run against another tree between our build step and this point)"""
+    if not _facts:
+        try:
+            from tools.pygen import vinegar as TV
+            for it in TV.translate(C.REPO):
+                if it.kind == "typed":
+                    _facts[it.name] = it.coq_term
+        except Exception:
+            pass
+        _facts.setdefault("load_lookup_mode", "LkGetattr")
+        _facts.setdefault("fast_path_noargs_only", "false")
+    return _facts
+
+
+def gen_mode():
+    """the lookup mode of the current tree (0 getattr, 1 __dict__ unless import_custom, 2 __dict__)"""
+    return {"LkGetattr": 0, "LkDictUnlessImport": 1, "LkDict": 2}.get(gen_facts()["load_lookup_mode"], 0)
+
+
 def gen_param():
-    try:
-        return "fast_path_noargs_only : bool := true" in open(C.COQ + "/gen/Gen_vinegar.v").read()
-    except OSError:
-        return False
+    return gen_facts()["fast_path_noargs_only"] == "true"
 
-
-# ------------------------------------------------------------------ case runners
 
 def make_builtin_case(case):
     r = random.Random(case["seed"])
@@ -869,6 +942,7 @@ def make_custom_case(fx, case):
 def run_cases(ctx, fx, cases, model):
     """cases: list of dicts (JSON-serialisable). phases: sender half for all, model 'serve' batch, requester half, model 'load' batch."""
     P = gen_param()
+    MODE = gen_mode()
     stage = []
     for case in cases:
         fx.unload_lazy()
@@ -891,8 +965,12 @@ def run_cases(ctx, fx, cases, model):
         sx_in = ["serve", P, list(sf), cps(VERSION), None, exc_sx(exc, type(exc))]
         st, wire, tbtext = serve_exception(fx, exc, sf)
         if st == "sender-error":
-            ctx.count("skipped:sender-error:" + type(wire).__name__)
-            ctx.coverage_extra.setdefault("sender_errors", []).append("%s: %s" % (short(exc, 80), short(wire, 120)))
+            # the serving side failed to report the exception at all: that is the property's first clause failing, not a skipped case
+            ctx.count("sender-error:" + type(wire).__name__)
+            ctx.case(("sender-error", type(exc).__name__, canon(exc.args), tuple(sf)), nontrivial=True)
+            ctx.violation("sender-failed-to-report:" + C.exc_enum(wire), case, observed="%s: %s" % (type(wire).__name__, short(wire, 160)),
+                          expected="one MSG_EXCEPTION frame carrying " + short(exc, 80),
+                          what="_dispatch_request raised / sent nothing instead of reporting the exception raised by the handler [%s %s sf=%s]" % (kind, short(exc, 100), sf))
             continue
         sx_in[4] = cps(tbtext or "")
         stage.append((case, exc, sx_in, st, wire, tbtext))
@@ -939,7 +1017,7 @@ def run_cases(ctx, fx, cases, model):
         env = env_sx(fx, modname, clsname)
         was_loaded = isinstance(modname, str) and modname in sys.modules
         obs = receive(fx, wire, rf)
-        loads.append(["load", list(rf), env, to_sx(payload2)])
+        loads.append(["load", MODE, list(rf), env, to_sx(payload2)])
         todo.append((case, exc, descr, obs, tbtext, payload2, modname, clsname, was_loaded))
         fx.unload_lazy()
     load_out = model.batch(loads) if model and loads else None
@@ -955,27 +1033,35 @@ def run_cases(ctx, fx, cases, model):
             oracle_genuine(ctx, case, exc, ("cls", type(exc)), case["sf"], rf, obs, tbtext, descr)
             oracle_effects(ctx, case, rf, obs, [], [], descr)
         elif kind == "custom":
-            ctx.count("custom:%s:%s" % ({LOADED: "imported", LAZY: "importable", LAZY2: "importable", NOSUCH: "unknown"}.get(modname, "other"), clsname))
+            ctx.count("custom:%s:%s" % ({LOADED: "imported", LAZY: "importable", LAZY2: "importable", NOSUCH: "unknown", HOOK: "hooked"}.get(modname, "other"), clsname))
             ctx.case(("c", modname, clsname, canon(exc.args), tuple(case["sf"]), tuple(rf)), nontrivial=True,
                      sample={"raise": short(exc, 80), "module": modname, "receiver": rf, "caught": short(type(obs["caught"]), 80)})
             present = was_loaded or (rf[0] and modname in (LAZY, LAZY2))
+            alt = None
             if modname in (LOADED, LAZY, LAZY2):
                 k = MOD_NS.get(clsname, "")
                 ident = (modname, clsname) if k == "exc" else (("builtins", k[8:]) if k.startswith("builtin:") else None)
             else:
-                v = getattr(sys.modules.get(modname), clsname, None)
+                v = getattr(sys.modules.get(modname), "__dict__", {}).get(clsname)
                 ident = (v.__module__, v.__name__) if isinstance(v, type) and issubclass(v, BaseException) else None
             real = bool(rf[1] and present and ident is not None)
+            if modname == HOOK and clsname in HOOK_LAZY and rf[0] and rf[1]:
+                # served by the module's __getattr__: with BOTH switches on the hook may be consulted (its imports happen and the class
+                # it returns may be used) -- or not; with either switch off the property demands a stand-in and no import
+                himps, hfound = HOOK_LAZY[clsname]
+                alt = (himps, ["Foo"] if hfound else [])
+                if hfound and obs["imports"] == himps:
+                    real, ident = True, hfound
             if real and modname == LOADED and ident[0] == LOADED:
                 expect = ("cls", getattr(fx.loaded, clsname))
             elif real:
                 expect = ("ident", ident)
             else:
                 expect = ("generic", "%s.%s" % (modname, clsname))
-            if modname != "builtins":          # a class that calls itself builtins.X is indistinguishable from X on the wire: correspondence only
-                oracle_genuine(ctx, case, exc, expect, case["sf"], rf, obs, tbtext, descr)
             allowed_new = [clsname] if (real and clsname in ("Foo", "Base") and modname in CUSTOM_MODS) else []
-            oracle_effects(ctx, case, rf, obs, allowed_import, allowed_new, descr)
+            ok_eff = oracle_effects(ctx, case, rf, obs, allowed_import, allowed_new, descr, hooked=has_module_hook(modname), alt=alt)
+            if modname != "builtins" and ok_eff:   # a class that calls itself builtins.X is indistinguishable from X on the wire: correspondence only
+                oracle_genuine(ctx, case, exc, expect, case["sf"], rf, obs, tbtext, descr)
             fx.unload_lazy()
         else:
             o = obs["obj"]
@@ -988,7 +1074,10 @@ def run_cases(ctx, fx, cases, model):
             allowed_new = []
             if rf[1] and str_mod and modname in CUSTOM_MODS and clsname in ("Foo", "Base") and (was_loaded or (rf[0] and modname in (LAZY, LAZY2))):
                 allowed_new = [clsname]
-            oracle_effects(ctx, case, rf, obs, allowed_import, allowed_new, descr)
+            alt = None
+            if modname == HOOK and isinstance(clsname, str) and clsname in HOOK_LAZY and rf[0] and rf[1]:
+                alt = (HOOK_LAZY[clsname][0], ["Foo"] if HOOK_LAZY[clsname][1] else [])
+            oracle_effects(ctx, case, rf, obs, allowed_import, allowed_new, descr, hooked=has_module_hook(modname), alt=alt)
             obj = obs["obj"]
             if obs["raised"] is None:
                 ok = obj is StopIteration or type(obj) is str
@@ -1032,9 +1121,14 @@ def generate(ctx):
         for sf in ((1, 1, 0, 1), (0, 0, 0, 0), (1, 0, 1, 1)):
             cases.append({"kind": "builtin", "cls": name, "variant": variant, "seed": r.getrandbits(48), "sf": list(sf), "rf": [0, 0, 0]})
     n_custom = 6 if ctx.quick else 60
-    for mod in (LOADED, LAZY, LAZY2, NOSUCH, "harness.C09", "builtins"):
+    for mod in (LOADED, LAZY, LAZY2, NOSUCH, "harness.C09", "builtins", HOOK):
         # "ValueError"/"OSError" outside builtins: a custom class that merely shares its name with a built-in one
-        for cn in (["Foo", "NeedsArgs", "Sub", "Base", "NotExc", "Plain", "helper", "VE", "Missing", "ValueError", "OSError"] if mod != "builtins" else ["ValueError", "int", "Nope"]):
+        names = ["Foo", "NeedsArgs", "Sub", "Base", "NotExc", "Plain", "helper", "VE", "Missing", "ValueError", "OSError"]
+        if mod == "builtins":
+            names = ["ValueError", "int", "Nope"]
+        elif mod == HOOK:      # a module whose __getattr__ imports on demand: names it serves lazily, a real attribute, an absent one
+            names = ["LazyExc", "LazyOther", "LazyNone", "HookExc", "plain_value", "Missing"]
+        for cn in names:
             if mod == "harness.C09" and cn not in ("Foo", "Missing", "MyInt", "ValueError"):
                 continue
             for j in range(n_custom):
